@@ -296,7 +296,7 @@ func run() int {
 }
 
 type runtimeState struct {
-	mu                   sync.RWMutex
+	mu                   stateMutex
 	routes               []config.CompiledRoute
 	pathToRoute          map[string]string
 	trendSignals         config.TrendSignalsConfig
